@@ -153,7 +153,7 @@ func setStr(m map[string]bool) string {
 func checkC23(p *Prog, r *Result, tier string) {
 	r.Technique = "sibling agreement between the two store.Store implementations: equality of the key-layout constants (constant evaluation), agreement of failure classes per interface method (which error sentinels, mapped to classes by a frozen table, each implementation and its same-backend callees can produce), and an atomicity rule for multi-key conditional creates (one conditional transaction with an inspected result vs. a pipeline of independent SETNX)"
 	r.Explanation = "KC every key-layout constant has the same name and value in both backends; FC for every method of store.Store the failure classes {not-found, exists, has-children, invalid-argument} that the etcd implementation can produce are exactly those the redis implementation can produce (sentinels used in value position, followed through same-backend callees; a class on one side only means some operation fails in one backend and succeeds in the other); " +
-		"CW in every store function that creates conditionally, no plain write (put/set/delete/update) lies on a path to the conditional create — a refused create has then changed nothing; DC both backends decrease the in-progress counter by exactly one (etcd: Itoa(Atoi(value read) − 1), redis: one DECR); DL where the etcd implementation turns 'nothing was deleted' into not-found, the redis implementation inspects DEL's count as well; AT a create of several keys is one conditional operation whose outcome is inspected — etcd: a single transaction comparing Version(key) == 0 for every key; redis: must not be a pipeline that issues an independent SETNX per key (the keys that were absent are written although the call reports failure), and the per-key results must be looked at; a multi-key UPDATE tests all keys with one EXISTS before it writes and never uses a conditional command per key."
+		"CW in every store function that creates conditionally, no plain write (put/set/delete/update) lies on a path to the conditional create — a refused create has then changed nothing; DC both backends decrease the in-progress counter by exactly one (etcd: Itoa(Atoi(value read) − 1), redis: one DECR); BS0 BindStatus looks at the entity key on every path in both backends (redis: EXISTS before every write); KD same-named helper functions of the two backends build their keys from the same key-layout constants and under the same conditions (a key deleted always in one backend and only sometimes in the other leaves different metadata behind); DL where the etcd implementation turns 'nothing was deleted' into not-found, the redis implementation inspects DEL's count as well; AT a create of several keys is one conditional operation whose outcome is inspected — etcd: a single transaction comparing Version(key) == 0 for every key; redis: must not be a pipeline that issues an independent SETNX per key (the keys that were absent are written although the call reports failure), and the per-key results must be looked at; a multi-key UPDATE tests all keys with one EXISTS before it writes and never uses a conditional command per key."
 	r.NotCovered = "equality of the stored metadata after arbitrary sequences; ordering and limits of list results; error classes produced by the servers themselves"
 	r.Assumptions = []string{"the failure-class table (printed under tables) maps each sentinel to the class a caller can observe"}
 	r.Tables["failure_classes"] = c23Class
@@ -543,6 +543,136 @@ func checkC23(p *Prog, r *Result, tier string) {
 		}
 	}
 
+	// ---- BS0: BindStatus looks at the entity on the same paths in both backends. redis tests EXISTS(entityKey) before every
+	// write; etcd must not have a branch (e.g. ttl == 0) that returns through a helper which is not handed the entity key
+	if EB := p.Fn("store/etcdv3/meta.(*ETCD).BindStatus"); EB == nil {
+		r.undecided("BS0", "store/etcdv3/meta BindStatus", "", "not found")
+	} else {
+		ent := EB.paramObj(1)
+		key := "store BindStatus / the entity is looked at on every path in both backends"
+		why := ""
+		EB.inspectBody(func(n ast.Node) bool {
+			rt, ok := n.(*ast.ReturnStmt)
+			if !ok || len(rt.Results) != 1 {
+				return true
+			}
+			c, ok := unparen(rt.Results[0]).(*ast.CallExpr)
+			if !ok {
+				return true
+			}
+			uses := false
+			for _, a := range c.Args {
+				if EB.usesObj(a, ent) {
+					uses = true
+				}
+			}
+			if !uses {
+				cond := ""
+				EB.inspectBody(func(y ast.Node) bool {
+					if is, ok := y.(*ast.IfStmt); ok && is.Body.Pos() <= rt.Pos() && rt.End() <= is.Body.End() {
+						cond = exprStr(is.Cond)
+					}
+					return true
+				})
+				why = "etcd's BindStatus returns through `" + exprStr(c.Fun) + "` without the entity key when `" + cond + "`: a status with that TTL is accepted for a node or workload that does not exist, where redis (EXISTS on the entity before every write) answers ErrInvaildCount"
+			}
+			return true
+		})
+		r.min("BS0", 1)
+		r.check2(why, "BS0", key, p.pos(EB.Decl), "every return of etcd's BindStatus goes through a helper that is handed the entity key")
+	}
+
+	// ---- KD: same-named helper functions of the two backends touch the same set of keys: for every function that exists in
+	// both store packages under the same name and builds a []string of keys (or a map keyed by them) from the key-layout
+	// constants, the multiset of constants used is the same and none of the keys is added under a condition that the
+	// sibling does not have
+	{
+		type keyUse struct {
+			consts []string
+			cond   map[string]string
+		}
+		collect := func(fn *FuncNode) *keyUse {
+			ku := &keyUse{cond: map[string]string{}}
+			var stack []ast.Node
+			ast.Inspect(fn.Body, func(n ast.Node) bool {
+				if n == nil {
+					stack = stack[:len(stack)-1]
+					return false
+				}
+				stack = append(stack, n)
+				id, ok := n.(*ast.Ident)
+				if !ok {
+					return true
+				}
+				c, ok := fn.Pkg.TypesInfo.Uses[id].(*types.Const)
+				if !ok || c.Pkg() != fn.Pkg.Types || !(strings.HasSuffix(c.Name(), "Key") || strings.HasSuffix(c.Name(), "Prefix")) {
+					return true
+				}
+				ku.consts = append(ku.consts, c.Name())
+				for i := len(stack) - 1; i >= 0; i-- {
+					if is, ok := stack[i].(*ast.IfStmt); ok && i+1 < len(stack) && stack[i+1] == ast.Node(is.Body) {
+						ku.cond[c.Name()] = exprStr(is.Cond)
+						break
+					}
+				}
+				return true
+			})
+			sort.Strings(ku.consts)
+			// a set: how often a constant is mentioned does not matter
+			uniq := ku.consts[:0]
+			for i, c := range ku.consts {
+				if i == 0 || c != ku.consts[i-1] {
+					uniq = append(uniq, c)
+				}
+			}
+			ku.consts = uniq
+			return ku
+		}
+		nk := 0
+		for _, ef := range p.sortedFuncs("store/etcdv3") {
+			if ef.Decl == nil || ef.Obj == nil || relPath(ef.Pkg.PkgPath) != "store/etcdv3" {
+				continue
+			}
+			sig, _ := ef.Obj.Type().(*types.Signature)
+			if sig == nil || sig.Recv() == nil {
+				continue
+			}
+			rf := p.Fn("store/redis.(*Rediaron)." + ef.Obj.Name())
+			if rf == nil || rf.Body == nil {
+				continue
+			}
+			eu, ru := collect(ef), collect(rf)
+			if len(eu.consts) == 0 && len(ru.consts) == 0 {
+				continue
+			}
+			if ef.Obj.Name() == "SetNodeStatus" {
+				// redis writes the node status without looking at the node record: recorded as a C25 known finding (waived
+				// here by name, as under FC)
+				continue
+			}
+			nk++
+			key := "store " + ef.Obj.Name() + " / both backends build their keys from the same layout constants, under the same conditions"
+			why := ""
+			if strings.Join(eu.consts, ",") != strings.Join(ru.consts, ",") {
+				why = fmt.Sprintf("etcd uses [%s], redis uses [%s]: the two backends read, write or delete different keys for the same operation", strings.Join(eu.consts, " "), strings.Join(ru.consts, " "))
+			} else {
+				for c, cond := range eu.cond {
+					if _, both := ru.cond[c]; !both {
+						why = "etcd touches the " + c + " key only under `" + cond + "`, redis always: after the same sequence one backend still holds (or lacks) that key"
+					}
+				}
+				for c, cond := range ru.cond {
+					if _, both := eu.cond[c]; !both {
+						why = "redis touches the " + c + " key only under `" + cond + "`, etcd always: after the same sequence one backend still holds (or lacks) that key"
+					}
+				}
+			}
+			r.check2(why, "KD", key, p.pos(ef.Decl), "["+strings.Join(eu.consts, " ")+"]")
+		}
+		r.min("KD", 15)
+		r.Analysed["sibling_functions_with_keys"] = nk
+	}
+
 	// ---- CW: a failed create leaves the store unchanged — nothing is written before the conditional create
 	r.min("CW", 8)
 	condCreate := map[string]bool{"BatchCreate": true, "batchCreate": true, "BatchCreateAndDecr": true, "Create": true, "MSetNX": true, "SetNX": true}
@@ -691,6 +821,21 @@ func checkC23(p *Prog, r *Result, tier string) {
 			case "Run", "Eval", "EvalSha":
 				up := strings.ToUpper(c23ScriptText(p, R, c))
 				n += strings.Count(up, "\"DECR\"")
+				// the DECR is not inside an if/loop of the script (the guard that returns for a missing counter is closed
+				// before it)
+				depth := 0
+				for _, line := range strings.Split(up, "\n") {
+					l := " " + strings.TrimSpace(line) + " "
+					if strings.Contains(l, "\"DECR\"") && depth > 0 {
+						bad = "DECR inside a conditional or loop of the script"
+					}
+					if strings.Contains(l, " THEN ") || strings.HasSuffix(strings.TrimSpace(l), " THEN") || strings.Contains(l, " DO ") || strings.HasSuffix(strings.TrimSpace(l), " DO") {
+						depth++
+					}
+					if strings.HasPrefix(strings.TrimSpace(l), "END") {
+						depth--
+					}
+				}
 				for _, w := range []string{"\"DECRBY\"", "\"INCR\"", "\"INCRBY\"", "MATH.MAX", "MATH.MIN"} {
 					if strings.Contains(up, w) {
 						bad = w
